@@ -287,6 +287,15 @@ def step (st : DState) (line : String) : DState × String :=
     (match addDynamicTypeItemText Gen.lexEnv st.cfg st.now it texts with
      | some (c', ok) => ({ st with cfg := c' }, if ok then "1" else "0")
      | none => (st, "unsupported"))
+  | ["date_rule_text", lang, pats] =>
+    -- `set_date_rule` from the pattern TEXTS (hex, '|'-separated), tokenised in the language
+    let texts : List String := if pats = "" then [] else (pats.splitOn "|").map stringOfHex
+    (match setDateRuleText Gen.lexEnv st.cfg st.now lang texts with
+     | some c' => ({ st with cfg := c' }, "ok")
+     | none => (st, "unsupported"))
+  | ["readsback", dec, thou, bits] =>
+    -- hypothesis of SCP.C12Exec.executeCode_mul on one amount: its printed text is a literal that reads back as itself
+    (st, if readsBackB (F := Float) (stringOfHex dec) (stringOfHex thou) (floatOfHex bits) then "1" else "0")
   | ["rule_del", lang, name] =>
     let (c', ok) := deleteRule st.cfg lang (stringOfHex name)
     ({ st with cfg := c' }, if ok then "1" else "0")
